@@ -318,7 +318,10 @@ def manager_ops(unit, model):
                     ops.append(('set', st, i, 'x'))
                 elif 'a' not in model[st][i]:
                     ops.append(('add_map', st, i))
-                ops.append(('del_key', st, i))
+                if st == 2:
+                    ops.append(('complete', st, i))
+                else:
+                    ops.append(('del_key', st, i))
     return ops
 
 
@@ -338,10 +341,26 @@ def apply_manager(unit, sm, model, op):
         elif op[0] == 'del_key':
             sm.del_key(st, k)
             del model[st][i]
+        elif op[0] == 'complete':
+            mks = list(sm.iterate_map(st, k))
+            if mks != list(model[st][i]):
+                problems.append(('manager-iterate_map-differs', i, repr(mks)))
+            for mk in mks:
+                if sm.get_map(st, k, mk) != model[st][i][mk]:
+                    problems.append(('manager-get_map-differs', i, mk))
+                sm.del_map(st, k, mk)
+            sm.del_key(st, k)
+            del model[st][i]
     except Exception as e:
         problems.append(('operation-raises', op[0], st, i, repr(e)))
         return problems
     for s in (0, 1):
+        try:
+            it = [x[0] for x in sm.iterate_state(s)]
+            if it != [(j,) for j in sorted(model[s])]:
+                problems.append(('manager-iterate_state-differs-from-live-keys', s, repr(it)))
+        except Exception as e:
+            problems.append(('manager-iterate_state-raises', s, repr(e)))
         for j, v in model[s].items():
             got = sm.get_state(s, (j,))
             if (v is NS) != (got is NOTSET) or (v is not NS and got != v):
